@@ -15,9 +15,17 @@ import (
 
 const statusSuccess = "urn:oasis:names:tc:SAML:2.0:status:Success"
 
-type oracleFn func(e *Exec) (class, what string)
+type oracleFn = func(e *Exec) (class, what string)
 
 func runAll(prop, dir, tier string, seed int64, scenarios []*Scenario, rule string, oracles ...oracleFn) error {
+	return RunWith(prop, dir, tier, seed, scenarios, rule, nil, oracles...)
+}
+
+// NewScenario is the default SSO scenario (registered SP with certificate, Redirect transport, unsigned).
+func NewScenario(stream string, id int) *Scenario { return newScenario(stream, id) }
+
+// RunWith runs SSO scenarios through the handler and the Coq model; extra (if any) adds further evaluations to the same run.
+func RunWith(prop, dir, tier string, seed int64, scenarios []*Scenario, rule string, extra func(run *coqgen.Run), oracles ...func(e *Exec) (class, what string)) error {
 	run := coqgen.NewRun(dir, prop, tier, seed)
 	run.Imports = "From Saml Require Import Base.Bytes Gen.Pure Idp.Sso Corr.SsoCorr."
 	run.CaseType = "sso_case"
@@ -54,6 +62,9 @@ func runAll(prop, dir, tier string, seed int64, scenarios []*Scenario, rule stri
 				run.Fail(coqgen.Failure{ID: id, Class: class, What: what, Input: e.Desc()})
 			}
 		}
+	}
+	if extra != nil {
+		extra(run)
 	}
 	run.Res.Rule = rule
 	return run.Finish()
